@@ -12,7 +12,9 @@
    top [rest..];  grp, a container WITHOUT a handler of its own, with the sub-command one [rest..];  lazy [rest..], whose
    handler is built by a factory (set_handler(callable)) each time the configuration is asked for it;  plus the
    built-in default command "help".  Every other user command has the same handler object: it writes one
-   tagged line per verbosity level (tags 1..4 = NORMAL, VERBOSE, VERY_VERBOSE, DEBUG) to stdout and stderr, asks a
+   tagged line per verbosity level (tags 1..4 = NORMAL, VERBOSE, VERY_VERBOSE, DEBUG) to stdout and stderr - through a
+   different one of the eight write routes each (write_line, write, write_raw, write_line_raw / error_line, error_raw,
+   error_line_raw, error) - sends a control sequence to an output that says it supports ANSI (as components do), asks a
    ConfirmationQuestion (default yes), then a plain Question and a ChoiceQuestion that have NO default (the input holds
    "n", "bob", "a" and ends), records what the IO says about itself, then returns 0
    (beh "ok"), returns 3 ("code"), raises ("raise"), or - "meddle" - turns the quiet flag round and sets the verbosity
@@ -101,7 +103,9 @@ InScope(line) ==
         ELSE \E c \in CmdIds \ {"help"} : Cmd[c].path = names /\ Walk(Lead(line)) = c
 
 \* ================================================================== A-layer
-NoIO == [ran |-> FALSE, quiet |-> FALSE, level |-> 0, inter |-> TRUE]
+\* what the I/O tells the handler about itself; ansiOut / ansiErr = output.supports_ansi() of the two outputs - what
+\* components (progress indicators, sections) go by when they decide to send control sequences
+NoIO == [ran |-> FALSE, quiet |-> FALSE, level |-> 0, inter |-> TRUE, ansiOut |-> FALSE, ansiErr |-> FALSE]
 \* DefaultApplicationConfig.create_io
 CreateIO(line, streams) ==
   LET o == OptTok(line)
@@ -161,7 +165,8 @@ Stage(s) ==
                            \* the two questions without default: what was typed, or None - never a prompt, never a read
                            !.answer2 = IF s.io.inter THEN "typed" ELSE "default",
                            !.consumed = IF s.io.inter THEN 3 ELSE 0,
-                           !.seen = [ran |-> TRUE, quiet |-> s.io.quiet, level |-> s.io.level, inter |-> s.io.inter],
+                           !.seen = [ran |-> TRUE, quiet |-> s.io.quiet, level |-> s.io.level, inter |-> s.io.inter,
+                                     ansiOut |-> s.io.decoOut, ansiErr |-> s.io.decoErr],
                            !.page = "n/a",
                            !.status = IF s.beh = "code" THEN 3 ELSE 0,
                            !.pc = IF s.beh = "raise" THEN "report" ELSE "done"]
@@ -188,11 +193,14 @@ PVerbosity(line, o) == (Given(line, VerbT) /\ o.io.ran) =>
    /\ o.io.level = Level(line)
    /\ (~Given(line, QuietT) => (o.outTags = 1..(Level(line) + 1) /\ o.errTags = 1..(Level(line) + 1)))
 \* "the no-ANSI switch removes every escape sequence" (nothing is said about both switches together)
-PNoAnsi(line, o) == (Given(line, NoAnsiT) /\ ~Given(line, AnsiT)) => (o.outEsc # 2 /\ o.errEsc # 2)
+\* - also none from a component that asks the output whether it supports them
+PNoAnsi(line, o) == (Given(line, NoAnsiT) /\ ~Given(line, AnsiT)) =>
+   (o.outEsc # 2 /\ o.errEsc # 2 /\ ~o.io.ansiOut /\ ~o.io.ansiErr)
 \* "the ANSI switch forces decoration on any stream": styled text (tagged lines, pages) comes out with escapes
 PAnsi(line, o) == (Given(line, AnsiT) /\ ~Given(line, NoAnsiT)) =>
    /\ ((o.outTags # {} \/ o.page \notin {"none", "n/a", "other"}) => o.outEsc = 2)
    /\ (o.errTags # {} => o.errEsc = 2)
+   /\ (o.io.ran => (o.io.ansiOut /\ o.io.ansiErr))
 \* "the no-interaction switch makes questions return their defaults" - without reading
 \* (a question without a default returns None, its default)
 PNoInteraction(line, o) == (Given(line, NoIntT) /\ o.io.ran) =>
